@@ -122,6 +122,7 @@ def anchor_files(prop: str) -> set[str]:
 EXTRA_SCOPE = {
     "C02": ("pyoda_time/_local_date.py", "pyoda_time/calendars/_year_month_day_calculator.py"),
     "C06": ("pyoda_time/text/_offset_pattern_parser.py", "pyoda_time/time_zones/_fixed_date_time_zone.py"),
+    "C09": ("pyoda_time/calendars/_islamic_year_month_day_calculator.py", "pyoda_time/calendars/_persian_year_month_day_calculator.py", "pyoda_time/calendars/_um_al_qura_year_month_day_calculator.py", "pyoda_time/calendars/_badi_year_month_day_calculator.py", "pyoda_time/calendars/_coptic_year_month_day_calculator.py", "pyoda_time/calendars/_g_j_year_month_day_calculator.py", "pyoda_time/calendars/_gregorian_year_month_day_calculator.py", "pyoda_time/calendars/_julian_year_month_day_calculator.py"),
     "C12": ("pyoda_time/time_zones/cldr/_map_zone.py", "pyoda_time/time_zones/_fixed_date_time_zone.py", "pyoda_time/time_zones/_zone_interval.py"),
 }
 
